@@ -180,7 +180,9 @@ TOKENS = ['', 'x', '-1', '0x', '0x10', '1e999', 'INF', '-INF', 'NaN', 'nan',
           '//h/ns:C.k=1', 'C.k="a"', 'ä', 'a' * 300, '256', '65536',
           '-129', '4294967296', '18446744073709551616', '1' * 400, ' ', '\n',
           '&#0;', '%41', '0', '1', '2', '28', '29', '99999', '-0', '+5',
-          '1_0', '١٢']
+          '1_0', '\u0661\u0662', '\xb2', '1\xb9', '\u2462', '\u2075', '\xbd',
+          '\u2167', '\uff11\uff12', '\U0001d7d9', '1\u0663', ' 5', '5 ', '+', '-',
+          '0b1', '0o7', '1e2', '1.0', 'true', 'FALSE', 'None', 'null']
 
 GARBAGE = [
     b'', b' ', b'\x00', b'\xff\xfe\x00', b'not xml at all', b'<', b'<?xml',
@@ -275,6 +277,75 @@ def etree():
     return et
 
 
+FRAG = {
+    'VALUE': '<VALUE>v</VALUE>',
+    'VALUE.ARRAY': '<VALUE.ARRAY><VALUE>TRUE</VALUE><VALUE>1</VALUE>'
+                   '</VALUE.ARRAY>',
+    'VALUE.REFERENCE': '<VALUE.REFERENCE><INSTANCENAME CLASSNAME="C">'
+                       '<KEYBINDING NAME="k"><KEYVALUE>1</KEYVALUE>'
+                       '</KEYBINDING></INSTANCENAME></VALUE.REFERENCE>',
+    'VALUE.REFARRAY': '<VALUE.REFARRAY><VALUE.REFERENCE><CLASSNAME NAME="C"/>'
+                      '</VALUE.REFERENCE></VALUE.REFARRAY>',
+    'CLASSNAME': '<CLASSNAME NAME="C"/>',
+    'INSTANCENAME': '<INSTANCENAME CLASSNAME="C"/>',
+    'INSTANCENAME.KV': '<INSTANCENAME CLASSNAME="C"><KEYVALUE>1</KEYVALUE>'
+                       '</INSTANCENAME>',
+    'CLASS': '<CLASS NAME="C"/>',
+    'INSTANCE': '<INSTANCE CLASSNAME="C"/>',
+    'VALUE.NAMEDINSTANCE': '<VALUE.NAMEDINSTANCE><INSTANCENAME CLASSNAME="C"/>'
+                           '<INSTANCE CLASSNAME="C"/></VALUE.NAMEDINSTANCE>',
+    'VALUE.OBJECT': '<VALUE.OBJECT><CLASS NAME="C"/></VALUE.OBJECT>',
+    'VALUE.OBJECTWITHPATH':
+        '<VALUE.OBJECTWITHPATH><CLASSPATH><NAMESPACEPATH><HOST>h</HOST>'
+        '<LOCALNAMESPACEPATH><NAMESPACE NAME="n"/></LOCALNAMESPACEPATH>'
+        '</NAMESPACEPATH><CLASSNAME NAME="C"/></CLASSPATH><CLASS NAME="C"/>'
+        '</VALUE.OBJECTWITHPATH>',
+    'VALUE.OBJECTWITHLOCALPATH':
+        '<VALUE.OBJECTWITHLOCALPATH><LOCALINSTANCEPATH><LOCALNAMESPACEPATH>'
+        '<NAMESPACE NAME="n"/></LOCALNAMESPACEPATH><INSTANCENAME '
+        'CLASSNAME="C"/></LOCALINSTANCEPATH><INSTANCE CLASSNAME="C"/>'
+        '</VALUE.OBJECTWITHLOCALPATH>',
+    'VALUE.INSTANCEWITHPATH':
+        '<VALUE.INSTANCEWITHPATH><INSTANCEPATH><NAMESPACEPATH><HOST>h</HOST>'
+        '<LOCALNAMESPACEPATH><NAMESPACE NAME="n"/></LOCALNAMESPACEPATH>'
+        '</NAMESPACEPATH><INSTANCENAME CLASSNAME="C"/></INSTANCEPATH>'
+        '<INSTANCE CLASSNAME="C"/></VALUE.INSTANCEWITHPATH>',
+    'INSTANCEPATH':
+        '<INSTANCEPATH><NAMESPACEPATH><HOST>h</HOST><LOCALNAMESPACEPATH>'
+        '<NAMESPACE NAME="n"/></LOCALNAMESPACEPATH></NAMESPACEPATH>'
+        '<INSTANCENAME CLASSNAME="C"/></INSTANCEPATH>',
+    'OBJECTPATH':
+        '<OBJECTPATH><CLASSPATH><NAMESPACEPATH><HOST>h</HOST>'
+        '<LOCALNAMESPACEPATH><NAMESPACE NAME="n"/></LOCALNAMESPACEPATH>'
+        '</NAMESPACEPATH><CLASSNAME NAME="C"/></CLASSPATH></OBJECTPATH>',
+    'QUALIFIER.DECLARATION': '<QUALIFIER.DECLARATION NAME="Q" TYPE="string"/>',
+    'KEYVALUE': '<KEYVALUE VALUETYPE="numeric">x</KEYVALUE>',
+    'LOCALCLASSPATH': '<LOCALCLASSPATH><LOCALNAMESPACEPATH><NAMESPACE '
+                      'NAME="n"/></LOCALNAMESPACEPATH><CLASSNAME NAME="C"/>'
+                      '</LOCALCLASSPATH>',
+}
+# children the DTD allows under a parent: a valid response for another
+# operation / value shape, i.e. DTD-valid but wrong in this context
+ALLOWED = {
+    'PARAMVALUE': ['VALUE', 'VALUE.REFERENCE', 'VALUE.ARRAY', 'VALUE.REFARRAY',
+                   'CLASSNAME', 'INSTANCENAME', 'CLASS', 'INSTANCE',
+                   'VALUE.NAMEDINSTANCE', None],
+    'RETURNVALUE': ['VALUE', 'VALUE.REFERENCE', None],
+    'IRETURNVALUE': ['CLASSNAME', 'INSTANCENAME', 'INSTANCENAME.KV', 'VALUE',
+                     'VALUE.OBJECTWITHPATH', 'VALUE.OBJECTWITHLOCALPATH',
+                     'VALUE.OBJECT', 'OBJECTPATH', 'QUALIFIER.DECLARATION',
+                     'VALUE.ARRAY', 'VALUE.REFERENCE', 'CLASS', 'INSTANCE',
+                     'INSTANCEPATH', 'VALUE.NAMEDINSTANCE',
+                     'VALUE.INSTANCEWITHPATH', None],
+    'KEYBINDING': ['KEYVALUE', 'VALUE.REFERENCE'],
+    'VALUE.REFERENCE': ['CLASSNAME', 'INSTANCENAME', 'INSTANCEPATH',
+                        'LOCALCLASSPATH'],
+    'VALUE.OBJECT': ['CLASS', 'INSTANCE'],
+    'ERROR': ['INSTANCE', None],
+    'IMETHODRESPONSE': ['IRETURNVALUE.EMPTY', None],
+}
+
+
 def mutate(rng, data, pool):
     """Structure-aware mutation of a valid response document."""
     et = etree()
@@ -287,9 +358,25 @@ def mutate(rng, data, pool):
     kind = rng.choice(['attr-value', 'attr-value', 'attr-value', 'attr-drop',
                        'attr-drop', 'text', 'text', 'el-drop', 'el-dup',
                        'el-swap', 'el-foreign', 'value-null', 'el-rename',
-                       'attr-add', 'deep'])
+                       'attr-add', 'deep', 'context', 'context', 'context'])
     try:
-        if kind == 'attr-value':
+        if kind == 'context':
+            cands = [e for e in els if e.tag in ALLOWED]
+            e = rng.choice(cands)
+            alt = rng.choice(ALLOWED[e.tag])
+            n = len(e)
+            for c in list(e):
+                if rng.random() < 0.8 or n == 1:
+                    e.remove(c)
+            e.text = None
+            if alt == 'IRETURNVALUE.EMPTY':
+                e.insert(0, et.Element('IRETURNVALUE'))
+            elif alt is not None:
+                for _ in range(rng.choice([1, 1, 2])):
+                    e.insert(rng.randint(0, len(e)),
+                             et.fromstring(FRAG[alt]))
+            kind += ':%s<-%s' % (e.tag, alt)
+        elif kind == 'attr-value':
             cands = [e for e in els if e.attrib]
             e = rng.choice(cands)
             a = rng.choice(sorted(e.attrib))
@@ -504,10 +591,21 @@ def run_case(ctx, i, rng):
             if rng.random() < 0.3:
                 body = bytes(rng.getrandbits(8)
                              for _ in range(rng.randint(1, 60)))
-            elif rng.random() < 0.3:
+            elif rng.random() < 0.45:
                 v = valid_answer(request)
-                body = v[:rng.randint(0, len(v))]
-                script['mut'] = 'truncated'
+                if rng.random() < 0.5:
+                    body = v[:rng.randint(0, len(v))]
+                    script['mut'] = 'truncated'
+                else:
+                    # multi-line document cut right after a line terminator
+                    nl = rng.choice([b'\n', b'\r\n', b'\n\n'])
+                    v = v.replace(b'><', b'>' + nl + b'<')
+                    cuts = [i + len(nl) for i in range(len(v))
+                            if v.startswith(nl, i)]
+                    body = v[:rng.choice(cuts)] if cuts else nl
+                    if rng.random() < 0.1:
+                        body = rng.choice([b'\n', b'\r\n', b'\n\n\n', b' \n'])
+                    script['mut'] = 'truncated-at-line-end'
         elif rclass == 'invalid':
             body = rng.choice(INVALID_DOCS).replace('{op}', op).replace(
                 '{tok2}', rng.choice(TOKENS)).replace(
